@@ -1,10 +1,11 @@
 """Per-property manifest data (what is claimed, at which level, and why the rest is not applicable)."""
 
-TECH = 'bounded model checking of code lifted from the current source (Kani 0.68 / CBMC 6.11 / cadical SAT), symbolic inputs, unwinding assertions on, counterexamples replayed natively'
+TECH = 'solver-based: bounded model checking of code lifted from the current source (Kani 0.68 / CBMC 6.11 / cadical SAT) with symbolic inputs and oracle children, unwinding assertions on, counterexamples replayed natively'
+TECH_SMT = TECH + '; plus z3 (QF_BV) queries over the operator table translated from the grammar source, counterexamples replayed against brush and bash'
 
 CLAIMED = {
     'C01': dict(
-        text='Bounded panic-freedom of the integer-handling kernels behind the grammars (substring clamp, brace sequences, integer-attribute append, array key arithmetic, arithmetic operator tables, pow, loop-level decrement, radix literals): CBMC decides Kani\'s implicit overflow / bounds / unwrap obligations for every i64 / byte value inside the stated shapes. Not the whole statement: tokenizer, PEG grammars and string paths are outside (DESIGN 4/C01).',
+        text='Bounded panic-freedom of the integer-handling kernels behind the grammars (substring clamp, brace sequences, PEG number actions, integer-attribute append, array key arithmetic, arithmetic operator tables, pow, loop-level decrement, radix literals) and the recursion-depth guard of arithmetic variable dereference (subscripts evaluated at the caller\'s depth, contents at depth+1, the limit is an error - so self-referential variables end in a diagnostic, not a stack overflow): CBMC decides Kani\'s implicit overflow / bounds / unwrap obligations for every i64 / byte value inside the stated shapes. Not the whole statement: tokenizer, PEG grammars and string paths are outside (DESIGN 4/C01).',
         note='Trusted: rustc, Kani, CBMC, cadical; tracing stub crate; lifting recipes (a stale recipe yields inconclusive, never a violation). Strings and containers have concrete shapes.',
         ref='4/C01'),
     'C02': dict(
@@ -12,19 +13,19 @@ CLAIMED = {
         note='Outside: leaf command dispatch, the break/continue/return/exit builtins, eval/source, the parser. Reference rules are mine (cross-checked with bash on a smoke list).',
         ref='4/C02'),
     'C03': dict(
-        text='Exemption-flag contracts: every child in condition position / non-final and-or operand / under `!` is handed suppress_errexit=true, every other child exactly its parent\'s flag; errexit is applied once per pipeline iff enabled and not suppressed; pipefail/PIPESTATUS fold; nounset decision table. Decided for all child outcomes and flag values within the shapes.',
-        note='Outside: command substitution / inherit_errexit, option toggling through `set`, errtrace, which expansions count as unset.',
+        text='Exemption-flag contracts: every child in condition position / non-final and-or operand / under `!` is handed suppress_errexit=true, every other child exactly its parent\'s flag; errexit is applied once per pipeline iff enabled and not suppressed; pipefail/PIPESTATUS fold; nounset decision table and flag propagation through direct and indirect lookups; the exemption flag and the errexit option handed to a command substitution. Decided for all child outcomes and flag values within the shapes.',
+        note='Outside: what runs inside a command substitution after the flags are handed over, option toggling through `set`, errtrace, which expansions count as unset.',
         ref='4/C03'),
     'C06': dict(
         text='Index arithmetic of ${v:o:l} for every i64 offset/length (callee precondition 0<=start<=end<=len), shortest/longest prefix/suffix search against an oracle regex engine (all 2^8 match tables on concrete subjects), the set/unset/null decision table of :- := :+ :?. Not the whole statement (operator recognition, slicing of contents, ${v/p/r}, case modification are outside).',
         note='fancy-regex is replaced by an oracle whose is_match answers from a symbolic table indexed by candidate length; subjects are concrete strings of <= 3 characters.',
         ref='4/C06'),
     'C07': dict(
-        text='Evaluation kernels against two\'s-complement C semantics for every pair of i64 operands: the lifted operator table of apply_binary_op, unary and increment tables, short-circuit prefix, wrapping_pow_u64 (bounded exponent), parse_shell_literal_number on 2 symbolic bytes x symbolic radix, integer-attribute append arithmetic. Precedence/associativity (PEG table) is outside: swapping two precedence levels is not detectable here.',
+        text='Evaluation kernels against two\'s-complement C semantics for every pair of i64 operands: the lifted operator table of apply_binary_op, unary and increment tables, short-circuit prefix, wrapping_pow_u64 (bounded exponent), parse_shell_literal_number on 2 symbolic bytes x symbolic radix, integer-attribute append arithmetic, the dispatch contract of eval_expr_impl (x op= e reads x before evaluating e; ?: evaluates only the selected branch) and the recursion-depth discipline. Precedence, associativity and the literal->operator mapping of the PEG precedence! table are decided by z3: for every operator, every ordered pair of binary operators, prefix x binary and ?: x binary, brush\'s value of the two-operator expression equals C\'s for all operand values in range (499 queries).',
         note='For * / % the reference uses the same wrapping primitive (64-bit divider equivalence does not finish); assertion is on guards and operand order.',
         ref='4/C07'),
     'C09': dict(
-        text='Scope-stack discipline of env.rs (re-instantiated over a 2-slot map and a light variable stand-in) and readonly discipline / assignment-kind table of variables.rs (re-instantiated over a counting array map): for symbolic presence / readonly / exported flags and symbolic choice of operation, lookups, shadowing, pop restoration and readonly rejection with zero container mutations are decided by the solver.',
+        text='Scope-stack discipline of env.rs (re-instantiated over a 2-slot map and a light variable stand-in) and readonly discipline / assignment-kind table of variables.rs (re-instantiated over a counting array map): for symbolic presence / readonly / exported flags and symbolic choice of operation, lookups, shadowing, pop restoration and readonly rejection with zero container mutations are decided by the solver; the temporary-assignment protocol of execute_command (one Command scope, assignments inside it, popped on every path incl. a failing assignment) and the post_execute hook running exactly once on every dispatch path of a simple command.',
         note='The std HashMap/BTreeMap contract is assumed by the array-backed stand-ins; builtins that call these APIs are outside.',
         ref='4/C09'),
     'C10': dict(
@@ -32,23 +33,23 @@ CLAIMED = {
         note='Path::is_file is a symbolic boolean; the real Shell supplies the noclobber option.',
         ref='4/C10'),
     'C11': dict(
-        text='Pipeline wiring and start-before-wait protocol: transplant of spawn_pipeline_processes with pipe creation and stage launch as oracles (descriptors are tokens): N-1 pipes, stage k stdout -> stage k+1 stdin, no end kept by the parent, only the last stage may run in the parent shell. Data flow, liveness under pipe capacity and SIGPIPE are outside.',
+        text='Pipeline wiring and start-before-wait protocol: transplant of spawn_pipeline_processes with pipe creation and stage launch as oracles (descriptors are tokens): N-1 pipes, stage k stdout -> stage k+1 stdin, one writer and one reader per pipe, only the last stage may run in the parent shell, no writer run to completion before its reader starts (known finding D15); command substitution: program started, output drained to EOF before the join, status recorded once. Data flow, liveness under pipe capacity and SIGPIPE are outside.',
         note='Fully duck-typed environment; 2-4 stages.',
         ref='4/C11'),
     'C16': dict(
-        text='Trap protocol, one inductive step: transplants of invoke_trap_handler / on_exit / run_dash_c_command / run_script on a real Shell with the handler run, lookup and re-entrancy state as symbolic oracles: handler runs at most once strictly between enter and leave on every path, $? is restored, nothing runs if already active; on_exit is reached exactly once on every front-end path.',
+        text='Trap protocol, one inductive step: transplants of invoke_trap_handler / on_exit / run_dash_c_command / run_script on a real Shell with the handler run, lookup and re-entrancy state as symbolic oracles: handler runs at most once strictly between enter and leave on every path, $? is restored, nothing runs if already active; one nested ERR-inside-EXIT step restores the terminating status; run_parsed_result never returns Err; on_exit is reached exactly once, after the program and with its status, on every path of the -c and script front-ends.',
         note='Binary-side front-ends (brush-shell entry.rs, interactive_shell.rs), `exit` inside handlers, exec, signal traps are outside.',
         ref='4/C16'),
     'C17': dict(
-        text='Job-table bookkeeping as one inductive step from an arbitrary valid table (<= 3 live jobs, symbolic ids): add_as_current yields an id distinct from every live id; transplants of wait_all / Job::wait / sweep on a duck-typed table: wait_all returns only after every task of every job was awaited to completion, finished jobs reported once and removed, stopped jobs kept.',
+        text='Job-table bookkeeping as one inductive step from an arbitrary valid table (<= 3 live jobs, symbolic ids): add_as_current yields an id distinct from every live id (confirmed at history level: add, add, add, poll with symbolic completions, add from the empty table); transplants of wait_all / Job::wait / sweep / poll on a duck-typed table: wait_all returns only after every task of every job was awaited to completion, finished jobs reported once and removed, stopped jobs kept.',
         note='That awaiting a task implies its effects are visible is a tokio/kernel property and outside; so are output ordering and the builtins.',
         ref='4/C17'),
     'C18': dict(
-        text='Frame / scope pairing at the call sites: transplants of invoke_shell_function, source_file, invoke_trap_handler with push/pop as counting oracles and children returning arbitrary Ok/Err: pops == pushes on every path, body strictly between; push/pop symmetry discharged on callstack.rs re-instantiated over array containers.',
+        text='Frame / scope pairing at the call sites: transplants of invoke_shell_function, enter/leave_function, source_file, run_dash_c_command, invoke_trap_handler, execute_command (temporary-assignment scope via the lifted ScopeGuard) and the five dispatch functions of SimpleCommand (post_execute exactly once) with push/pop as counting oracles and children returning arbitrary Ok/Err: pops == pushes on every path, body strictly between; push/pop symmetry discharged on callstack.rs re-instantiated over array containers.',
         note='Descriptors, zombies and Arc handle lifetimes are kernel/runtime state and outside.',
         ref='4/C18'),
     'C20': dict(
-        text='Save protocol of History::flush: block lift of the body with the file system and containers bound to duck-typed recorders, over all sequences of <= 3 saves with symbolic (append, unsaved_only) and symbolic dirty flags: no item is written twice within a truncation epoch, order preserved, a save following a save adds nothing.',
+        text='Save protocol of History::flush: block lift of the body with the file system and containers bound to duck-typed recorders, over all sequences of <= 3 saves with symbolic (append, unsaved_only) and symbolic dirty flags: no item is written twice within a truncation epoch, order preserved, a save following a save adds nothing (known finding D14 for a full write followed by an append save); with a write fault at a symbolic point an item is marked saved only after its line reached the file, so the next save completes the job.',
         note='The real rpds containers, import, add/remove and multi-session interleavings are outside.',
         ref='4/C20'),
 }
